@@ -100,6 +100,26 @@ pub fn uri_pool(rng: &mut Rng) -> Vec<String> {
     if rng.chance(200) {
         v.push("file://host/w/b.spl".to_string()); // differs only in authority
     }
+    // distinct documents whose URIs are "almost" equal: letter case (case-sensitive file
+    // systems), query and fragment (notebook cells, revisions), a longer file name
+    if rng.chance(400) {
+        let near = [
+            "file:///w/A.spl",
+            "file:///w/a.SPL",
+            "file:///W/a.spl",
+            "file:///w/a.spl?rev=2",
+            "file:///w/a.spl#cell1",
+            "file:///w/a.spl.orig",
+            "file:///w/b.spl#cell1",
+            "file:///w/b.spl#cell2",
+        ];
+        for _ in 0..rng.range(1, 2) {
+            let u = rng.pick(&near).to_string();
+            if !v.contains(&u) {
+                v.push(u);
+            }
+        }
+    }
     v
 }
 
@@ -272,6 +292,7 @@ pub fn judge(sc: &Scenario) -> Judgement {
             _ => None,
         })
         .collect();
+    j.probe("two open URIs that differ only in letter case, query or fragment", uris.iter().any(|u| u.contains('#') || u.contains('?') || u.contains("A.spl") || u.contains("SPL") || u.contains("/W/")) as u64);
     j.probe("two open URIs that differ only in scheme", (uris.iter().any(|u| u.starts_with("untitled:")) && uris.iter().any(|u| u.as_str() == "file:///w/a.spl")) as u64);
     j.probe("iotx reached its capacity", (c.max_depth[0] as usize >= sc.knobs.chan_caps[0]) as u64);
     j.probe("doctx reached its capacity", (c.max_depth[1] as usize >= sc.knobs.chan_caps[1]) as u64);
